@@ -206,7 +206,15 @@ class Exec:
             if pr[0] == 'deref':
                 v = self.load(st, oid, key, ty)
                 if not isinstance(v, RefV):
-                    raise RuntimeError(f'deref of non-ref {v} ({ty}) in {fn.name}')
+                    if isinstance(v, Const):
+                        # a reference to a static / constant allocation: its contents are not interpreted (path marked)
+                        st.havoc.append('static data')
+                        self.unhandled['static data'] = self.unhandled.get('static data', 0) + 1
+                        pt = pointee(ty) if ty and is_ptr_type(ty) else 'opaque'
+                        box = st.new_obj(st.fresh_name('static'), 'box'); st.heap[box]['v'] = self.fresh_value(st, pt, st.fresh_name('static'))
+                        v = RefV(box, 'v')
+                    else:
+                        raise RuntimeError(f'deref of non-ref {v} ({ty}) in {fn.name}')
                 ty = pointee(ty) if ty and is_ptr_type(ty) else None
                 oid, key = v.oid, v.key
                 variant = None
@@ -219,7 +227,37 @@ class Exec:
                 oid, key, ty = v.oid, ('f', variant, pr[1]), pr[2]
                 variant = None
             elif pr[0] == 'index':
-                raise RuntimeError('index projection unsupported')
+                # P[_i] / P[k of n]: bounds are checked by an explicit MIR assert before; the element itself is read from a
+                # sequence model when there is one and the index is concrete, otherwise it is unconstrained (path marked)
+                base = self.load(st, oid, key, ty or 'opaque')
+                idx_txt = pr[1].strip()
+                elem_ty = None
+                m = re.match(r'^\[(.*); \d+\]$|^\[(.*)\]$', (ty or '').strip())
+                if m: elem_ty = (m.group(1) or m.group(2))
+                k = None
+                mm = re.match(r'^_(\d+)$', idx_txt)
+                if mm:
+                    iv = st.heap[fr['locals']].get(int(mm.group(1)))
+                    if isinstance(iv, BV):
+                        z = z3.simplify(iv.t)
+                        if z3.is_bv_value(z): k = z.as_long()
+                else:
+                    mm = re.match(r'^(\d+) of \d+$', idx_txt)
+                    if mm: k = int(mm.group(1))
+                tgt = base
+                while isinstance(tgt, RefV): tgt = st.heap[tgt.oid][tgt.key]
+                if isinstance(tgt, ObjV) and k is not None and 'model' in st.heap[tgt.oid] and k < len(st.heap[tgt.oid]['model']):
+                    box = st.new_obj(st.fresh_name('elem'), 'box'); st.heap[box]['v'] = st.heap[tgt.oid]['model'][k]
+                    oid, key, ty = box, 'v', elem_ty
+                elif isinstance(tgt, ObjV) and k is not None and ('f', None, k) in st.heap[tgt.oid]:
+                    oid, key, ty = tgt.oid, ('f', None, k), elem_ty
+                else:
+                    st.havoc.append('index projection')
+                    self.unhandled['index projection'] = self.unhandled.get('index projection', 0) + 1
+                    box = st.new_obj(st.fresh_name('elem?'), 'box')
+                    st.heap[box]['v'] = self.fresh_value(st, elem_ty or 'u64', st.fresh_name('elem'))
+                    oid, key, ty = box, 'v', elem_ty
+                variant = None
         return oid, key, ty
 
     def read_place(self, st, fr, pl):
@@ -287,6 +325,14 @@ class Exec:
                 return BoolV(z3.Not(a.t)) if isinstance(a, BoolV) else BV(~a.t, a.signed)
             if rv.extra == 'Neg':
                 return BV(-a.t, a.signed)
+            if rv.extra == 'PtrMetadata':
+                # length of a slice / str reference: the pointee carries a sequence model
+                v = a
+                while isinstance(v, RefV):
+                    v = st.heap[v.oid][v.key]
+                if isinstance(v, ObjV) and 'model' in st.heap[v.oid]:
+                    return BV(z3.BitVecVal(len(st.heap[v.oid]['model']), 64), False)
+                raise RuntimeError('PtrMetadata of a pointee without a sequence model')
             raise RuntimeError('unop ' + rv.extra)
         if k == 'discr':
             v = self.read_place(st, fr, rv.args[0])
@@ -310,7 +356,10 @@ class Exec:
             if kind == 'IntToInt' and isinstance(v, BoolV) and tgt in INT:
                 w, sg = INT[tgt]
                 return BV(z3.If(v.t, z3.BitVecVal(1, w), z3.BitVecVal(0, w)), sg)
-            raise RuntimeError(f'cast {kind} to {tgt} of {v}')
+            # float <-> int and other casts are not interpreted: the result is unconstrained and the path is marked
+            st.havoc.append(f'cast {kind} to {tgt}')
+            self.unhandled[f'cast {kind}'] = self.unhandled.get(f'cast {kind}', 0) + 1
+            return self.fresh_value(st, tgt, st.fresh_name(f'cast:{kind}'))
         if k == 'aggregate':
             form = rv.extra
             vals = [self.operand(st, fr, o) for o in rv.args]
@@ -632,7 +681,34 @@ def sum_map_err(ex, st, func, args, dest_ty):
         out.append((s2, ObjV(oid)))
     return out
 
+def _target(st, v):
+    while isinstance(v, RefV):
+        v = st.heap[v.oid][v.key]
+    return v
+
+def sum_is_variant(ex, st, func, args, dest_ty):
+    """Option::is_some / is_none, Result::is_ok / is_err"""
+    v = _target(st, args[0])
+    if not isinstance(v, ObjV): return None
+    d = ex.discr(st, v).t
+    want = {'is_none': 0, 'is_some': 1, 'is_ok': 0, 'is_err': 1}[func.rsplit('::', 1)[1]]
+    return [(st, BoolV(d == want))]
+
+def sum_unwrap_or_default_int(ex, st, func, args, dest_ty):
+    """Option::<int>::unwrap_or_default / unwrap_or(x)"""
+    o = _target(st, args[0])
+    if not isinstance(o, ObjV): return None
+    m = re.search(r'Option::<(\w+)>::', func)
+    if not m or m.group(1) not in INT: return None
+    w, sg = INT[m.group(1)]
+    d = ex.discr(st, o).t
+    p = ex.load(st, o.oid, ('f', 'Some', 0), m.group(1))
+    dflt = args[1].t if len(args) > 1 else z3.BitVecVal(0, w)
+    return [(st, BV(z3.If(d == 1, p.t, dflt), sg))]
+
 GENERIC = [
+    (r'Option::<.*>::is_some$|Option::<.*>::is_none$|Result::<.*>::is_ok$|Result::<.*>::is_err$', sum_is_variant),
+    (r'Option::<\w+>::unwrap_or_default$|Option::<\w+>::unwrap_or$', sum_unwrap_or_default_int),
     (r'Result::<.*>::map_err::<', sum_map_err),
     (r' as PartialEq>::(eq|ne)$', sum_fieldless_eq),
     (r' as Try>::branch$', sum_try_branch),
